@@ -62,6 +62,7 @@ class TLCResult:
         self.errors = []
         self.wall = 0.0
         self.coverage = {}
+        self.exhausted = True
 
     @property
     def ok(self):
@@ -92,11 +93,19 @@ def run_tlc(wd, module, cfg, workers=16, extra=(), env=None, timeout=3600, simul
     if env:
         e.update(env)
     t0 = time.time()
-    p = subprocess.run(cmd, cwd=wd, env=e, stdout=subprocess.PIPE, stderr=subprocess.STDOUT, timeout=timeout)
     r = TLCResult()
+    proc = subprocess.Popen(cmd, cwd=wd, env=e, stdout=subprocess.PIPE, stderr=subprocess.STDOUT)
+    try:
+        out, _ = proc.communicate(timeout=timeout)
+        r.rc = proc.returncode
+    except subprocess.TimeoutExpired:
+        # time-bounded search: what was explored so far (last progress line) counts, the run is marked as not exhausted
+        proc.kill()
+        out, _ = proc.communicate()
+        r.rc = 0
+        r.exhausted = False
     r.wall = time.time() - t0
-    r.rc = p.returncode
-    r.out = p.stdout.decode("utf8", "replace")
+    r.out = out.decode("utf8", "replace")
     m = re.findall(r"(\d+) states generated, (\d+) distinct states found", r.out)
     if m:
         r.states, r.distinct = int(m[-1][0]), int(m[-1][1])
